@@ -30,10 +30,40 @@ theorem shutdown_order :
     transition system was written for (regenerated from utils/udp.go) -/
 theorem skeleton_matches :
     Goflow.Generated.skStop = ["select{<-r.q | default}", "close(r.q)", "r.dispatch <- nil", "r.wg.Wait()", "r.init()"] ∧
-    Goflow.Generated.skStart = ["select{<-r.ready | default}"] ∧
-    Goflow.Generated.skInit = ["select{<-r.ready | default}", "close(r.ready)"] ∧
+    Goflow.Generated.skStart = ["select{<-r.ready | default}", "r.ready = make(chan bool)"] ∧
+    Goflow.Generated.skInit = ["r.q = make(chan bool)", "select{<-r.ready | default}", "close(r.ready)"] ∧
     Goflow.Generated.skDecoders = ["r.wg.Add(1)", "go", "defer r.wg.Done()", "range r.dispatch", "decodeFunc(&msg)", "packetPool.Put(pkt)"] := by
   decide +kernel
+
+/-! ### the quit channel across call sequences
+
+    `init()` recreates `r.q` *before* it looks at `ready` (skInit above), so also a Stop on a stopped
+    receiver — which closes `q` and then fails in `init` — leaves a fresh, open `q` behind. Whatever
+    the call sequence, when a call returns the quit channel is open: the readers of the next
+    successful Start are not told to quit by a leftover closed channel. -/
+
+theorem quit_open_after_every_call (calls : List Call) : (callRun2 callInit calls).1.qClosed = false := by
+  have key : ∀ (s : CallSt), s.qClosed = false → ∀ calls, (callRun2 s calls).1.qClosed = false := by
+    intro s hs calls
+    induction calls generalizing s with
+    | nil => simpa [callRun2] using hs
+    | cons c rest ih =>
+      simp only [callRun2]
+      apply ih
+      cases c
+      · simp only [callStep2]; split <;> simpa using hs
+      · simp only [callStep2, initStep]; split <;> rfl
+  exact key callInit rfl calls
+
+/-- the two-flag model returns the same results as the one-flag model (and hence as the specification) -/
+theorem callRun2_results (calls : List Call) : (callRun2 callInit calls).2 = callResults true calls := by
+  have key : ∀ (s : CallSt) calls, (callRun2 s calls).2 = callResults s.readyClosed calls := by
+    intro s calls
+    induction calls generalizing s with
+    | nil => rfl
+    | cons c rest ih =>
+      cases c <;> cases hr : s.readyClosed <;> simp [callRun2, callStep2, initStep, callResults, callStep, hr, ih]
+  exact key callInit calls
 
 /-! ### Stop drains the queue -/
 
